@@ -20,5 +20,5 @@ HARNESSES += [L(x, tiers=('thorough',)) for x in _q if len(x) == 4]
 ASSUMPTIONS = ['tier H with real reference counting and disposal (_os_object_retain/release*, _dispatch_xref_dispose, _dispatch_dispose, _dispatch_lane_class_dispose) and the harness object table (bounds + liveness on every heap access: a use after free is an assertion failure)',
                'X = dispatch_release of the client reference, at most once per queue; the finalizer/context are set through dispatch_set_context / dispatch_set_finalizer_f, queue-specific data through dispatch_queue_set_specific',
                'object types other than queues: groups (C07 S_enter/S_notify/S_wake retain/release accounting), data (C13 lifetime harnesses); sources, semaphores and I/O channels are not covered here', 'histories are sequential (see C01 tier H)']
-LEVEL_TEXT = 'placeholder'
-LEVEL_NOTE = 'placeholder'
+LEVEL_TEXT = 'Tier H with real reference counting and disposal and an object table on every heap access: all histories of submissions followed by dispatch_release of the client reference (serial, concurrent, chained, with finalizer + context and queue-specific data): no access after deallocation, deallocated exactly once after pending work, not deallocated while referenced or targeted by another queue, finalizer exactly once with the context current at that time, queue-specific destructor exactly once. Reference accounting of the +2 hand-off references is asserted in the C01/C04 tier-S lemmas (push-or-release exactly once).'
+LEVEL_NOTE = 'Queues only here; groups (C07) and data objects (C13) have their own lifetime assertions; sources, semaphores, I/O channels not covered; sequential histories.'
